@@ -149,6 +149,17 @@ pub fn bad() -> std::fmt::Result {
     Err(std::fmt::Error)
 }
 
+/// fmt::Write sink that hex-encodes what is written to it (allocation-free)
+struct HexW<'a>(&'a mut dyn FW);
+impl<'a> FW for HexW<'a> {
+    fn write_str(&mut self, s: &str) -> std::fmt::Result {
+        for b in s.bytes() {
+            write!(self.0, "{:02x}", b)?;
+        }
+        Ok(())
+    }
+}
+
 // ---------- integers ----------
 fn run_int<E: EndianParse>(o: W, e: E, kind: &str, off: usize, d: &[u8]) -> std::fmt::Result {
     let mut cur = off;
@@ -200,6 +211,16 @@ fn run_table<E: EndianParse, P: ParseAt + Show>(
             ("iter", 1) => {
                 o.write_str("[")?;
                 for (i, x) in Hinted(t.iter()).enumerate() {
+                    if i > 0 {
+                        o.write_str(" ")?;
+                    }
+                    x.show(o)?;
+                }
+                o.write_str("]")?;
+            }
+            ("intoiter", 1) => {
+                o.write_str("[")?;
+                for (i, x) in ParsingTable::<E, P>::new(e, c, d).into_iter().enumerate() {
                     if i > 0 {
                         o.write_str(" ")?;
                     }
@@ -285,6 +306,42 @@ pub fn run_case(o: W, g: &[Vec<Tok>]) -> std::fmt::Result {
         return bad();
     }
     match (h[0].w(), h.len()) {
+        ("errfmt", 6) => {
+            // Display and Error::source of a ParseError built from its public variants (std-wrapping ones via From)
+            let (a, b, c, d) = (h[2].n(), h[3].n(), h[4].n(), h[5].n());
+            let was = alloc_count::suspend(); // building a std::io::Error allocates: that is the harness, not the crate
+            let e = match h[1].n() {
+                0 => ParseError::BadMagic([a as u8, b as u8, c as u8, d as u8]),
+                1 => ParseError::UnsupportedElfClass(a as u8),
+                2 => ParseError::UnsupportedElfEndianness(a as u8),
+                3 => ParseError::UnsupportedVersion((a as u64, b as u64)),
+                4 => ParseError::BadOffset(a as u64),
+                5 => ParseError::StringTableMissingNul(a as u64),
+                6 => ParseError::BadEntsize((a as u64, b as u64)),
+                7 => ParseError::UnexpectedSectionType((a as u32, b as u32)),
+                8 => ParseError::UnexpectedSegmentType((a as u32, b as u32)),
+                9 => ParseError::UnexpectedAlignment(a as usize),
+                10 => ParseError::SliceReadError((a as usize, b as usize)),
+                11 => ParseError::IntegerOverflow,
+                12 => ParseError::from(core::str::from_utf8(&[0x61, 0xff]).unwrap_err()),
+                13 => ParseError::from(<[u8; 4]>::try_from(&[0u8; 3][..]).unwrap_err()),
+                14 => ParseError::from(u8::try_from(300u32).unwrap_err()),
+                15 => ParseError::from(std::io::Error::new(std::io::ErrorKind::Other, "x")),
+                _ => return bad(),
+            };
+            alloc_count::restore(was);
+            let src = std::error::Error::source(&e).is_some();
+            o.write_str("[")?;
+            if h[1].n() >= 12 {
+                write!(NullW(0), "{}", e)?; // std's own messages: run, not compared
+                o.write_str("none")?;
+            } else {
+                o.write_str("x")?;
+                write!(HexW(o), "{}", e)?; // Display straight into a hex-encoding sink: no String in between
+            }
+            write!(o, " {}]", src as u8)
+        }
+        ("endian", 2) => with_spec!(h[1].w(), e, write!(o, "[{} {}]", e.is_little() as u8, e.is_big() as u8)),
         ("int", 5) => with_spec!(h[1].w(), e, run_int(o, e, h[2].w(), h[3].us(), h[4].b())),
         ("parse", 6) => {
             let c = class_of(h[3].n()).ok_or(std::fmt::Error)?;
